@@ -87,12 +87,18 @@ class MediaBase(BaseWorld):
             fakes.SerialHash.install(cls)
             cls._sim_serial_counter["n"] = 0
         self.fabric = fakes.IceFabric(self.loop, ch, spec["seed_int"])
+        self.fabric.turn = cfg.get("turn")
         self._saved = [(icemod, "Connection", icemod.Connection)]
         icemod.Connection = self.fabric.make_connection
 
     def rebind(self, mod, name, value):
         self._saved.append((mod, name, getattr(mod, name)))
         setattr(mod, name, value)
+
+    def link_faults(self, links):
+        super().link_faults(links)
+        if self.fabric.turn_suspensions:
+            self.faults["send_suspended_in_transport"] += self.fabric.turn_suspensions
 
     def cleanup(self):
         for mod, name, val in reversed(self._saved):
@@ -151,6 +157,7 @@ def gen_media(ch, spec):
     cfg["sched"] = ch.chance("cfg", 0.7, True)
     cfg["stall_rate"] = ch.choice("cfg", [0.0, 0.0, 0.002])
     cfg["stall_max"] = ch.choice("cfg", [0.02, 0.3])
+    cfg["turn"] = fakes.gen_turn(ch, ["S", "R"])
     base = ch.choice("cfg", [0.002, 0.02, 0.08])
     if cfg["mode"] == "live":
         # faults on first transmissions only; feedback and retransmissions get through
@@ -581,6 +588,7 @@ def gen_dtls(ch, spec):
     p.corrupt = ch.choice("cfg", [0.0, 0.05, 0.2, 0.5])
     cfg["net"] = p.to_json()
     cfg["sched"] = ch.chance("cfg", 0.7, True)
+    cfg["turn"] = fakes.gen_turn(ch, ["A", "B"])
     n = ch.choice("wl", [4, 10, 25, 60])
     ops = []
     for _ in range(n):
@@ -648,6 +656,9 @@ class DtlsWorld(MediaBase):
         self.altered = {"A": 0, "B": 0}
         self.wire = {}                          # id(datagram bytes) bookkeeping is by order: see on_wire
         self.pending = {"A": [], "B": []}       # sends whose datagram fate is not yet known
+        # one send at a time per side, so that datagrams reach the wire in the order of `pending` even when the
+        # transport suspends a send (an uncontended lock does not suspend: schedules without contention are unchanged)
+        self.send_lock = {"A": asyncio.Lock(), "B": asyncio.Lock()}
         self.counter = 0
 
     # the link tells us what happened to every datagram; sends are matched in order
@@ -784,6 +795,10 @@ class DtlsWorld(MediaBase):
         self.link_faults(self.fabric.links)
 
     async def send_one(self, n, op, seq):
+        async with self.send_lock[n]:
+            await self._send_one(n, op, seq)
+
+    async def _send_one(self, n, op, seq):
         pair = self.pair
         d = pair.dtls[n]
         self.counter += 1
